@@ -189,6 +189,8 @@ type c10State struct {
 	mu        sync.Mutex
 	synSeen   []uint8 // N values of SYNs delivered to the server in its current attempt
 	staleNs   []uint8 // window values carried by injected stale SYNs that differ from the client's
+	staleDone bool    // a stale SYNACK or DATA packet (one that can complete a server handshake) was queued towards the server
+	staleEcho bool    // a stale SYN was queued towards the client (it can pass for the server's echo) or, with the client's own window, towards the server (it can pass for the client's SYN), or a late SYN was injected
 	hsCount   int     // handshake packets offered so far (both directions)
 	cliN      uint8
 	gotC2S    bool
@@ -297,8 +299,31 @@ func c10Run(rc *simrt.RunCtx, pattern int) {
 	// stale packets of an earlier connection
 	staleDrained := time.Duration(0)
 	if pattern < 0 && rc.Pick(3, "stale.on") != 0 {
+		synOnly := rc.Pick(4, "stale.syn-only") == 1
 		mk := func(l *link, dirName string) {
 			k := rc.Pick(6, "stale.count."+dirName)
+			if synOnly {
+				// only SYNs of an earlier connection with another valid
+				// window, towards the server
+				if dirName != "c2s" {
+					return
+				}
+				k = 1 + rc.Pick(3, "stale.syn-only-count")
+				for i := 0; i < k; i++ {
+					staleN := uint8(1 + rc.Pick(254, "stale.nval"))
+					if staleN == n {
+						// (a stale SYN with the client's own window could pass
+						// for the client's SYN; not in this mode)
+						staleN = n%254 + 1
+					}
+					st.mu.Lock()
+					st.staleNs = append(st.staleNs, staleN)
+					st.mu.Unlock()
+					l.inject([]byte{SYN, staleN}, time.Duration(rc.Pick(50, "stale.lat"))*time.Millisecond)
+					rc.Fault("stale-c2s-SYN-only")
+				}
+				return
+			}
 			for i := 0; i < k; i++ {
 				var b []byte
 				switch rc.Pick(7, "stale.kind") {
@@ -313,6 +338,14 @@ func c10Run(rc *simrt.RunCtx, pattern int) {
 						staleN = 0
 					}
 					b = []byte{SYN, staleN}
+					if dirName == "s2c" || staleN == n {
+						// towards the client it can pass for the server's
+						// echo; towards the server, with the client's own
+						// window, for the client's SYN
+						st.mu.Lock()
+						st.staleEcho = true
+						st.mu.Unlock()
+					}
 					if staleN != n {
 						st.mu.Lock()
 						st.staleNs = append(st.staleNs, staleN)
@@ -320,6 +353,11 @@ func c10Run(rc *simrt.RunCtx, pattern int) {
 					}
 				case 1:
 					b = []byte{SYNACK}
+					if dirName == "c2s" {
+						st.mu.Lock()
+						st.staleDone = true
+						st.mu.Unlock()
+					}
 				case 2:
 					b = []byte{ACK, byte(rc.Pick(int(n)+1, "stale.seq"))}
 				case 3:
@@ -331,6 +369,11 @@ func c10Run(rc *simrt.RunCtx, pattern int) {
 				case 6:
 					b = []byte{FIN}
 				}
+				if b[0] == DATA && dirName == "c2s" {
+					st.mu.Lock()
+					st.staleDone = true
+					st.mu.Unlock()
+				}
 				l.inject(b, time.Duration(rc.Pick(50, "stale.lat"))*time.Millisecond)
 				rc.Fault("stale-" + dirName + "-" + pktKind(b))
 			}
@@ -338,7 +381,7 @@ func c10Run(rc *simrt.RunCtx, pattern int) {
 		mk(np.c2s, "c2s")
 		mk(np.s2c, "s2c")
 		staleDrained = 100 * time.Millisecond
-		if rc.Pick(2, "stale.late") == 1 {
+		if !synOnly && rc.Pick(2, "stale.late") == 1 {
 			// ... and one that lands inside the handshake (between the
 			// echoed SYN and the SYNACK)
 			// (only the client's own proposal - a duplicate of its SYN - or a
@@ -354,6 +397,9 @@ func c10Run(rc *simrt.RunCtx, pattern int) {
 				np.c2s.inject([]byte{SYN, lateN}, 0)
 			}()
 			rc.Fault("stale-c2s-late-SYN")
+			st.mu.Lock()
+			st.staleEcho = true
+			st.mu.Unlock()
 			if at+50*time.Millisecond > staleDrained {
 				staleDrained = at + 50*time.Millisecond
 			}
@@ -428,10 +474,23 @@ func c10Run(rc *simrt.RunCtx, pattern int) {
 						cause := "data-flows-with-other-window"
 						st.mu.Lock()
 						for _, v := range st.staleNs {
-							if v == c.cfg.n {
+							if v == c.cfg.n && (st.staleDone || st.staleEcho) {
 								// the server adopted the window of a stale SYN of
-								// an earlier connection (recorded finding)
+								// an earlier connection, confirmed by a stale
+								// SYNACK/DATA or with a stale SYN passing for the
+								// server's echo (recorded finding)
 								cause += "/adopted-stale-syn"
+								break
+							}
+							if v == c.cfg.n {
+								// nothing stale could have confirmed it, have
+								// passed for the server's echo or for the client's
+								// SYN: the only SYNACK is
+								// the client's, sent after the server had echoed
+								// the client's own window - so the server saw the
+								// client's SYN after the stale one (the links are
+								// FIFO) and still kept the older window
+								cause += "/kept-stale-syn-over-the-clients"
 								break
 							}
 						}
